@@ -185,7 +185,7 @@ class Rule(MethodWIGM):
             elif C.hopeful():
                 #  find & defeat candidate with lowest vote
                 #
-                low_vote = min(c.vote for c in C.hopeful())
+                low_vote = V.min([c.vote for c in C.hopeful()])    # the stored minimum (built-in min compares within the guarded tolerance)
                 low_candidates = [c for c in C.hopeful() if c.vote == low_vote]
                 #  (batch only if enough hopeful candidates remain to fill the seats)
                 if low_vote == V0 and self.defeat_batch == 'zero' and \
